@@ -66,8 +66,21 @@ Proof.
 Qed.
 
 (* ------------------------------------------------------------------ the post of a whole call *)
+Definition win_frame (e : env) (s s' : st) : Prop :=
+  frame (s_mem s) (s_mem s') (e_base e) (e_base e + e_cap e).
+
+Lemma frame_widen m m' lo hi lo' hi' : frame m m' lo hi -> lo' <= lo -> hi <= hi' -> frame m m' lo' hi'.
+Proof. intros F ? ? i Hi. apply F. lia. Qed.
+
+Lemma win_frame_same e s s' : s_mem s' = s_mem s -> win_frame e s s'.
+Proof. intros H. unfold win_frame. rewrite H. apply frame_refl. Qed.
+
+Lemma win_frame_range e s s' off len : inside (e_cap e) off len = true ->
+  frame (s_mem s) (s_mem s') (e_base e + off) (e_base e + off + len) -> win_frame e s s'.
+Proof. intros Hin F. apply inside_spec in Hin. eapply frame_widen; eauto; lia. Qed.
+
 Definition run_post (e : env) (c : call) (s : st) (res : outcome rv * st) : Prop :=
-  LI e (s_log (snd res)) /\
+  LI e (s_log (snd res)) /\ win_frame e s (snd res) /\
   match fst res with
   | Panic => s_mem (snd res) = s_mem s
   | Ok r => forall n, spec_ok (e_scap e) (e_src e) (s_mem s) (e_base e) (e_cap e) c r
@@ -78,7 +91,7 @@ Definition run_post (e : env) (c : call) (s : st) (res : outcome rv * st) : Prop
 (* wrappers *)
 Lemma as_bytes_rd e off len s (acc : M (list Z)) :
   rdpost e off len s (acc s) ->
-  LI e (s_log (snd (as_bytes acc s))) /\
+  LI e (s_log (snd (as_bytes acc s))) /\ win_frame e s (snd (as_bytes acc s)) /\
   match fst (as_bytes acc s) with
   | Panic => s_mem (snd (as_bytes acc s)) = s_mem s
   | Ok r => forall n, sp_reads (s_mem s) (e_base e) (e_cap e) r
@@ -89,14 +102,14 @@ Proof.
   intros (L & Mm & R). unfold as_bytes.
   destruct (acc s) as [r s1] eqn:E. cbn [fst snd] in *.
   destruct R as [-> | [Hin ->]].
-  - bpanic E. cbn [fst snd]. auto.
-  - bok E. cbn [ret fst snd]. split; auto. intros n. unfold sp_reads. cbn [snd].
+  - bpanic E. cbn [fst snd]. auto using win_frame_same.
+  - bok E. cbn [ret fst snd]. split; auto. split; [apply win_frame_same; auto | ]. intros n. unfold sp_reads. cbn [snd].
     rewrite Hin, Mm, diff_same, list_eqb_refl. reflexivity.
 Qed.
 
 Lemma as_unit_w e off len s (acc : M unit) :
   wpost e off len s (acc s) ->
-  LI e (s_log (snd (as_unit acc s))) /\
+  LI e (s_log (snd (as_unit acc s))) /\ win_frame e s (snd (as_unit acc s)) /\
   match fst (as_unit acc s) with
   | Panic => s_mem (snd (as_unit acc s)) = s_mem s
   | Ok r => forall n, sp_writes (e_base e) (e_cap e) (diff n (s_mem s) (s_mem (snd (as_unit acc s)))) off len = true
@@ -106,16 +119,16 @@ Proof.
   intros (L & R). unfold as_unit.
   destruct (acc s) as [r s1] eqn:E. cbn [fst snd] in *.
   destruct r as [[] | | | | ]; try contradiction.
-  - bok E. cbn [ret fst snd]. split; auto. intros n. destruct R as [Hin F]. unfold sp_writes.
-    rewrite Hin, (diff_frame n _ _ _ _ F). reflexivity.
-  - bpanic E. cbn [fst snd]. auto.
+  - bok E. cbn [ret fst snd]. split; auto. destruct R as [Hin F]. split; [eapply win_frame_range; eauto | ].
+    intros n. unfold sp_writes. rewrite Hin, (diff_frame n _ _ _ _ F). reflexivity.
+  - bpanic E. cbn [fst snd]. auto using win_frame_same.
 Qed.
 
 Lemma as_num_expose e sz pos s (acc : M Z) :
   (acc s = (Panic, s) \/
    (inside (e_cap e) pos sz = true /\ acc s = (Ok (e_base e + pos), add_log (0, e_base e + pos, sz) s))) ->
   wf_env e -> LI e (s_log s) ->
-  LI e (s_log (snd (as_num acc s))) /\
+  LI e (s_log (snd (as_num acc s))) /\ win_frame e s (snd (as_num acc s)) /\
   match fst (as_num acc s) with
   | Panic => s_mem (snd (as_num acc s)) = s_mem s
   | Ok r => forall n, sp_exposes (e_base e) (e_cap e) r (diff n (s_mem s) (s_mem (snd (as_num acc s)))) pos sz = true
@@ -123,8 +136,9 @@ Lemma as_num_expose e sz pos s (acc : M Z) :
   end.
 Proof.
   intros [E | [Hin E]] W L; unfold as_num.
-  - bpanic E. cbn [fst snd]. auto.
+  - bpanic E. cbn [fst snd]. auto using win_frame_same.
   - bok E. cbn [ret fst snd add_log s_log s_mem]. split; [apply LI_add0; auto | ].
+    split; [apply win_frame_same; reflexivity | ].
     intros n. unfold sp_exposes. cbn [fst]. rewrite Hin, diff_same. cbn. rewrite Z.eqb_refl. reflexivity.
 Qed.
 
@@ -148,17 +162,19 @@ Qed.
 Theorem run_spec : forall c e s, wf_env e -> wf_call c -> LI e (s_log s) -> run_post e c s (run e c s).
 Proof.
   induction c; intros e s W Hc L; unfold run_post; cbn [run spec_ok wf_call] in *.
-  - (* CNop *) cbn [ret fst snd]. split; auto. intros n. rewrite diff_same, list_eqb_refl. reflexivity.
+  - (* CNop *) cbn [ret fst snd]. split; auto. split; [apply win_frame_same; reflexivity | ]. intros n. rewrite diff_same, list_eqb_refl. reflexivity.
   - (* CView *)
     destruct Hc as (Ho & Hl & Hc).
     destruct (a_view_spec e off len s W Ho Hl) as [E | (Hin & W' & E)].
-    + bpanic E. cbn [fst snd]. auto.
+    + bpanic E. cbn [fst snd]. auto using win_frame_same.
     + bok E.
       assert (L' : LI (view_env e off len) (s_log (add_log (0, e_base e + off, len) s))).
       { cbn [view_env e_rcap e_scap add_log s_log]. apply LI_add0; auto. }
-      pose proof (IHc (view_env e off len) _ W' Hc L') as (L2 & R2).
+      pose proof (IHc (view_env e off len) _ W' Hc L') as (L2 & F2 & R2).
+      unfold win_frame in *.
       cbn [view_env e_rcap e_scap e_base e_cap e_src add_log s_mem] in *.
       split; auto.
+      split; [apply inside_spec in Hin; eapply frame_widen; eauto; lia | ].
       destruct (fst (run (view_env e off len) c (add_log (0, e_base e + off, len) s))); auto.
       intros n. rewrite Hin. apply R2.
   - (* CGet *) destruct Hc. apply as_bytes_rd. apply a_get_spec; auto.
@@ -174,18 +190,20 @@ Proof.
     pose proof (a_compare_and_set_spec e sz pos expd upd s W Hsz Hp L) as (L1 & R1).
     destruct (a_compare_and_set e sz pos expd upd s) as [r s1] eqn:E. cbn [fst snd] in *.
     destruct r as [b | | | | ]; try contradiction.
-    + bok E. cbn [ret fst snd]. split; auto. intros n. destruct R1 as [Hin F]. unfold sp_writes.
+    + bok E. cbn [ret fst snd]. split; auto. destruct R1 as [Hin F]. split; [eapply win_frame_range; eauto | ].
+      intros n. unfold sp_writes.
       rewrite Hin, (diff_frame n _ _ _ _ F). reflexivity.
-    + bpanic E. cbn [fst snd]. auto.
+    + bpanic E. cbn [fst snd]. auto using win_frame_same.
   - (* CAddOrdered *) apply as_unit_w. apply a_add_i64_ordered_spec; auto.
   - (* CGetAndAdd *)
     pose proof (a_get_and_add_i64_spec e off delta s W Hc L) as ((L1 & R1) & V1).
     unfold as_bytes.
     destruct (a_get_and_add_i64 e off delta s) as [r s1] eqn:E. cbn [fst snd] in *.
     destruct r as [b | | | | ]; try contradiction.
-    + bok E. cbn [ret fst snd]. split; auto. intros n. destruct R1 as [Hin F]. unfold sp_writes.
+    + bok E. cbn [ret fst snd]. split; auto. destruct R1 as [Hin F]. split; [eapply win_frame_range; eauto | ].
+      intros n. unfold sp_writes.
       rewrite Hin, (diff_frame n _ _ _ _ F), (V1 b eq_refl), list_eqb_refl. reflexivity.
-    + bpanic E. cbn [fst snd]. auto.
+    + bpanic E. cbn [fst snd]. auto using win_frame_same.
   - (* CSetMemory *) destruct Hc. apply as_unit_w. eapply wrpost_wpost. apply a_set_memory_spec; auto.
   - (* CPutBytes *) destruct Hc. apply as_unit_w. eapply wrpost_wpost. apply a_put_bytes_spec; auto.
   - (* CWrite *) apply as_unit_w. eapply wrpost_wpost. apply a_write_spec; auto.
@@ -195,11 +213,12 @@ Proof.
     unfold as_unit.
     destruct (a_copy_from e off soff len s) as [r s1] eqn:E. cbn [fst snd] in *.
     destruct r as [[] | | | | ]; try contradiction.
-    + bok E. cbn [ret fst snd]. split; auto. intros n. destruct R1 as (Hin & Hin2 & Hm).
-      unfold sp_writes. rewrite Hin, Hin2.
+    + bok E. cbn [ret fst snd]. split; auto. destruct R1 as (Hin & Hin2 & Hm).
       assert (0 <= len) by (apply inside_spec in Hin; lia).
       assert (F : frame (s_mem s) (s_mem s1) (e_base e + off) (e_base e + off + len))
         by (rewrite Hm; apply frame_upd; lia).
+      split; [eapply win_frame_range; eauto | ]. intros n.
+      unfold sp_writes. rewrite Hin, Hin2.
       rewrite (diff_frame n _ _ _ _ F). cbn [andb].
       apply forallb_forall. intros [i v] Hi. cbn [fst snd].
       pose proof (diff_frame n _ _ _ _ F) as Wi. unfold within in Wi.
@@ -207,10 +226,11 @@ Proof.
       apply diff_in in Hi. destruct Hi as [_ ->]. rewrite Hm. unfold Buffer.upd.
       replace ((e_base e + off <=? i) && (i <? e_base e + off + len)) with true by lia.
       rewrite nth_byte_map_zseq by lia. apply Z.eqb_refl.
-    + bpanic E. cbn [fst snd]. auto.
+    + bpanic E. cbn [fst snd]. auto using win_frame_same.
   - (* CAsSlice *)
     destruct (a_as_slice_spec e s W L) as [E Hin]. bok E.
     cbn [ret fst snd add_log s_log s_mem]. split; [apply LI_add0; auto | ].
+    split; [apply win_frame_same; reflexivity | ].
     intros n. rewrite diff_same, !list_eqb_refl. reflexivity.
   - (* CSubSlice *) destruct Hc. apply as_bytes_rd. apply a_as_sub_slice_spec; auto.
   - (* CGetString *)
@@ -218,8 +238,8 @@ Proof.
     unfold as_bytes.
     destruct (a_get_string e off s) as [r s1] eqn:E. cbn [fst snd] in *.
     destruct R1 as [-> | (I1 & I2 & ->)].
-    + bpanic E. cbn [fst snd]. auto.
-    + bok E. cbn [ret fst snd]. split; auto. intros n. unfold sp_string. cbn [snd].
+    + bpanic E. cbn [fst snd]. auto using win_frame_same.
+    + bok E. cbn [ret fst snd]. split; auto. split; [apply win_frame_same; auto | ]. intros n. unfold sp_string. cbn [snd].
       fold (string_len (s_mem s) (e_base e + off)).
       rewrite I1, I2, M1, diff_same, list_eqb_refl. reflexivity.
   - (* CGetStringWl *) destruct Hc. apply as_bytes_rd. apply a_get_string_without_length_spec; auto.
@@ -231,9 +251,9 @@ Proof.
     unfold as_num.
     destruct (a_put_string_without_length e off n wbyte s) as [r s1] eqn:E. cbn [fst snd] in *.
     destruct r as [z | | | | ]; try contradiction.
-    + bok E. cbn [ret fst snd]. split; auto. intros k. destruct R1 as [Hin F].
+    + bok E. cbn [ret fst snd]. split; auto. destruct R1 as [Hin F]. split; [exact F | ]. intros k.
       rewrite Hin, (diff_frame k _ _ _ _ F). reflexivity.
-    + bpanic E. cbn [fst snd]. auto.
+    + bpanic E. cbn [fst snd]. auto using win_frame_same.
   - (* FNew *) destruct Hc. apply as_num_expose; auto. apply a_overlay_struct_spec; auto.
   - (* FStringGet *)
     unfold f_string_get.
@@ -241,8 +261,8 @@ Proof.
     unfold as_bytes.
     destruct (a_get_string e off s) as [r s1] eqn:E. cbn [fst snd] in *.
     destruct R1 as [-> | (I1 & I2 & ->)].
-    + bpanic E. cbn [fst snd]. auto.
-    + bok E. cbn [ret fst snd]. split; auto. intros n. unfold sp_string. cbn [snd].
+    + bpanic E. cbn [fst snd]. auto using win_frame_same.
+    + bok E. cbn [ret fst snd]. split; auto. split; [apply win_frame_same; auto | ]. intros n. unfold sp_string. cbn [snd].
       fold (string_len (s_mem s) (e_base e + off)).
       rewrite I1, I2, M1, diff_same, list_eqb_refl. reflexivity.
   - (* FStringGetLength *) apply as_bytes_rd. apply a_get_string_length_spec; auto.
@@ -273,7 +293,7 @@ Proof.
     destruct Hc as (Hsz & Hf & H1 & H2 & H3). unfold as_bytes.
     destruct (a_overlay_struct_spec e sz fb s W Hsz Hf) as [E | [Hin E]].
     + assert (E1 : f_field e sz fb foff flen s = (Panic, s)) by (unfold f_field, f_new; bpanic E; reflexivity).
-      bpanic E1. cbn [fst snd]. auto.
+      bpanic E1. cbn [fst snd]. auto using win_frame_same.
     + assert (Hin2 : inside (e_cap e) (fb + foff) flen = true)
         by (apply inside_spec in Hin; apply inside_spec; lia).
       assert (E1 : f_field e sz fb foff flen s =
@@ -282,7 +302,7 @@ Proof.
       { unfold f_field, f_new. bok E. rewrite (rd_ok e (fb + foff) flen _ W Hin2). reflexivity. }
       bok E1. cbn [ret fst snd add_log s_log s_mem]. split.
       * apply log_inside_app; [apply LI_add0; auto | ]. unfold range_ok. cbn. apply inside_root; auto.
-      * intros n. unfold sp_reads. cbn [snd]. rewrite Hin, Hin2, diff_same, list_eqb_refl. reflexivity.
+      * split; [apply win_frame_same; reflexivity | ]. intros n. unfold sp_reads. cbn [snd]. rewrite Hin, Hin2, diff_same, list_eqb_refl. reflexivity.
 Qed.
 
 (* ------------------------------------------------------------------ consequences, as stated in Props/C16.v *)
@@ -290,15 +310,20 @@ Lemma run_safe e c s : wf_env e -> wf_call c -> LI e (s_log s) ->
   LI e (s_log (snd (run e c s))) /\
   (fst (run e c s) = Panic \/ exists r, fst (run e c s) = Ok r).
 Proof.
-  intros W Hc L. destruct (run_spec c e s W Hc L) as [L1 R1]. split; auto.
+  intros W Hc L. destruct (run_spec c e s W Hc L) as (L1 & _ & R1). split; auto.
   destruct (fst (run e c s)); try contradiction; eauto.
 Qed.
 
 Lemma run_panic_untouched e c s : wf_env e -> wf_call c -> LI e (s_log s) ->
   fst (run e c s) = Panic -> s_mem (snd (run e c s)) = s_mem s.
 Proof.
-  intros W Hc L HP. destruct (run_spec c e s W Hc L) as [_ R1]. rewrite HP in R1. exact R1.
+  intros W Hc L HP. destruct (run_spec c e s W Hc L) as (_ & _ & R1). rewrite HP in R1. exact R1.
 Qed.
+
+(* only bytes of the buffer the call was applied to can change: in particular nothing outside the root region *)
+Lemma run_frame e c s : wf_env e -> wf_call c -> LI e (s_log s) ->
+  forall i, ~ (e_base e <= i < e_base e + e_cap e) -> s_mem (snd (run e c s)) i = s_mem s i.
+Proof. intros W Hc L. destruct (run_spec c e s W Hc L) as (_ & F & _). exact F. Qed.
 
 Lemma root_env_wf m rcap scap : size32 rcap -> size32 scap -> wf_env (root_env m rcap scap).
 Proof.
@@ -318,7 +343,7 @@ Lemma oracle_model m rcap scap p w c : size32 rcap -> size32 scap -> wf_call c -
 Proof.
   intros Hr Hs Hc. unfold observe, holds_call.
   pose proof (run_spec c (root_env m rcap scap) (mkSt (planted p w) []) (root_env_wf m rcap scap Hr Hs) Hc
-                ltac:(constructor)) as [_ R].
+                ltac:(constructor)) as (_ & _ & R).
   destruct (run (root_env m rcap scap) c (mkSt (planted p w) [])) as [r s1]. cbn [fst snd s_mem] in *.
   cbn [no_change andb].
   destruct r; try contradiction.
